@@ -175,12 +175,8 @@ def confirm_ops(rng, tree, old, target, reorg, fwd, drain_p=0.0):
                 ops.append({"op": "best", "b": b})
         for p in pending:
             ops += txs_ops(p)
-        if path and not (ops and ops[-1] == {"op": "best", "b": target}):
-            # the tip itself, unless the last thing done was exactly that
-            if not any(o["op"] == "best" and o["b"] == target for o in ops):
-                ops.append({"op": "best", "b": target})
-            elif rng.random() < 0.3:
-                ops.append({"op": "best", "b": target})
+        if path and not any(o["op"] == "best" and o["b"] == target for o in ops):
+            ops.append({"op": "best", "b": target})
     if drain_p > 0:
         out = []
         for o in ops:
@@ -412,7 +408,7 @@ def convert_tlc(rng, s):
 # ----------------------------------------------------------------------------- the check
 
 TRACE_MODULE, TRACE_CFG = "ChainViewTrace", "ChainViewTrace.cfg"
-KNOWN_KEY = "PendingClaims_FundingSpendClaimLostOnRewind"
+KNOWN_KEY = "PendingClaims_LostOnRewind"
 ENV_OPS = ("conn", "disc", "txs", "best", "unconf", "begin", "reload", "reset")
 MC_ACTIONS = ["MPlain", "MBegin", "MRestart", "MConnect", "MDisconnect", "MTxs", "MUnconfirm", "MBest", "MSync"]
 
@@ -705,14 +701,10 @@ def run(tier, seed):
             diff = diff_conclusions(fl["run_events"], by_run.get(canon_run, []), ev.get("idx", 0)) if ev.get("ev") == "sync" else {}
             key = None
             if fl["inv"] == "PendingClaimsDeliveryIndependent" and not known:
-                # attribute to the recorded class only if the sole difference is the claim on the funding output
-                fidx = 1 if metas[script["scen"]]["funding_role"] else 5
+                # the recorded class: claims of the canonical delivery are missing in this schedule
                 d = diff.get("R.claims")
-                if d:
-                    a = [g for g in d["canonical"] if [fidx, 0] not in g]
-                    b = [g for g in d["this_schedule"] if [fidx, 0] not in g]
-                    if a == b:
-                        key = KNOWN_KEY
+                if d and all(g in d["canonical"] for g in d["this_schedule"]):
+                    key = KNOWN_KEY
             name = "b%d-run%d" % (bi, fl["run"])
             what = "panic" if ev.get("ev") == "panic" else (fl["inv"] or "unmatched event")
             vlib.log("[reject] batch %d run %d (%s, %s) at %s: %s" % (bi, fl["run"], script["scen"], script["kind"], ev.get("ev"), what))
